@@ -17,6 +17,18 @@ Definition good_step : Prop :=
     | MOut | MPanic _ => False
     end.
 
+(* the same relative to an invariant of the matcher state: asked only of states that satisfy it,
+   and every state handed back satisfies it again (for the real matcher: its arrays have matching
+   lengths).  good_step is the instance with the trivial invariant. *)
+Variable Inv : mstate -> Prop.
+Definition good_step_on : Prop :=
+  forall pos s, pos <= n -> Inv s ->
+    match matchf pos s with
+    | MTrue s' => (exists a b, get_pstart s' 0 = Some a /\ get_pend s' 0 = Some b /\ pos <= a /\ a < b /\ b <= n) /\ Inv s'
+    | MFalse s' => Inv s'
+    | MOut | MPanic _ => False
+    end.
+
 (* the spans the loops visit: search from pos, resume at the end of each match *)
 Fixpoint scan (fuel pos : nat) (s : mstate) : list (nat * nat) :=
   match fuel with
@@ -85,28 +97,28 @@ Proof. reflexivity. Qed.
 
 (* at the end of the input the tokenizer asks the matcher once more; a good matcher finds nothing
    there (a match would have to be empty) *)
-Lemma no_match_at_end (G : good_step) s : match matchf n s with MFalse _ => True | _ => False end.
+Lemma no_match_at_end (G : good_step_on) s : Inv s -> match matchf n s with MFalse _ => True | _ => False end.
 Proof.
-  specialize (G n s (le_n n)). destruct (matchf n s); auto.
-  destruct G as (a & b & _ & _ & H1 & H2 & H3). lia.
+  intros Hi. specialize (G n s (le_n n) Hi). destruct (matchf n s); auto.
+  destruct G as [(a & b & _ & _ & H1 & H2 & H3) _]. lia.
 Qed.
 
-Theorem tok_all_spec (G : good_step) : forall k pe s, n - pe < k -> pe <= n ->
+Theorem tok_all_spec_on (G : good_step_on) : forall k pe s, Inv s -> n - pe < k -> pe <= n ->
   tok_all (S (S k)) {| t_prev := Some pe; t_ms := s |} = Ok (pieces (scan (S k) pe s) pe).
 Proof.
-  induction k as [|k IH]; intros pe s Hk Hpe; [lia|].
+  induction k as [|k IH]; intros pe s Hinv Hk Hpe; [lia|].
   rewrite tok_all_S, scan_S. unfold tok_next_gen at 1. cbn [t_prev t_ms].
-  pose proof (G pe s Hpe) as Gp.
+  pose proof (G pe s Hpe Hinv) as Gp.
   destruct (Nat.ltb pe n) eqn:Lt.
   - apply Nat.ltb_lt in Lt.
     destruct (matchf pe s) as [s'|s'| |e]; cbn [mres_bool rbind]; try contradiction.
-    + destruct Gp as (a & b & Ha & Hb & H1 & H2 & H3). rewrite Ha, Hb.
+    + destruct Gp as [(a & b & Ha & Hb & H1 & H2 & H3) Hinv']. rewrite Ha, Hb.
       rewrite rslice_ok by lia. cbn [rbind].
-      rewrite (IH b s') by lia. cbn [rbind pieces]. reflexivity.
+      rewrite (IH b s' Hinv') by lia. cbn [rbind pieces]. reflexivity.
     + rewrite rslice_ok by lia. cbn [rbind pieces].
       rewrite tok_all_S. unfold tok_next_gen. cbn [t_prev rbind]. reflexivity.
   - apply Nat.ltb_ge in Lt. assert (pe = n) by lia. subst pe.
-    pose proof (no_match_at_end G s) as E.
+    pose proof (no_match_at_end G s Hinv) as E.
     destruct (matchf n s) as [s'|s'| |e]; try contradiction. cbn [mres_bool rbind].
     rewrite rslice_ok by lia. cbn [rbind pieces].
     rewrite tok_all_S. unfold tok_next_gen. cbn [t_prev rbind]. reflexivity.
@@ -123,26 +135,26 @@ Proof.
   cbn [length]. specialize (IH b s'). lia.
 Qed.
 
-Lemma scan_bound (G : good_step) : forall fuel pos s, pos <= n -> length (scan fuel pos s) <= n - pos.
+Lemma scan_bound_on (G : good_step_on) : forall fuel pos s, Inv s -> pos <= n -> length (scan fuel pos s) <= n - pos.
 Proof.
-  induction fuel as [|f IH]; intros pos s Hp; [cbn; lia|].
+  induction fuel as [|f IH]; intros pos s Hinv Hp; [cbn; lia|].
   rewrite scan_S.
   destruct (Nat.ltb pos n) eqn:Lt; [|cbn; lia]. apply Nat.ltb_lt in Lt.
-  pose proof (G pos s Hp) as Gp.
+  pose proof (G pos s Hp Hinv) as Gp.
   destruct (matchf pos s) as [s'|s'| |e]; try (cbn; lia).
-  destruct Gp as (a & b & Ha & Hb & H1 & H2 & H3). rewrite Ha, Hb. cbn [length].
-  specialize (IH b s' H3). lia.
+  destruct Gp as [(a & b & Ha & Hb & H1 & H2 & H3) Hinv']. rewrite Ha, Hb. cbn [length].
+  specialize (IH b s' Hinv' H3). lia.
 Qed.
 
 Lemma pieces_length spans pos : length (pieces spans pos) = S (length spans).
 Proof. revert pos; induction spans as [|[a b] t IH]; intros pos; cbn; auto. Qed.
 
 (* tokenize yields at most len + 1 tokens *)
-Theorem tok_count_bound (G : good_step) s :
+Theorem tok_count_bound_on (G : good_step_on) s : Inv s ->
   exists l, tok_all (S (S (S n))) {| t_prev := Some 0; t_ms := s |} = Ok l /\ length l <= n + 1.
 Proof.
-  eexists. split; [apply tok_all_spec; auto; lia|].
-  rewrite pieces_length. pose proof (scan_bound G (S (S n)) 0 s). lia.
+  intros Hinv. eexists. split; [apply tok_all_spec_on; auto; lia|].
+  rewrite pieces_length. pose proof (scan_bound_on G (S (S n)) 0 s Hinv). lia.
 Qed.
 
 (* once the iterator has returned None it keeps returning None *)
@@ -162,20 +174,20 @@ Fixpoint join (ps : list (list N)) : list N :=
   | p :: t => p ++ repl ++ join t
   end.
 
-Lemma replace_loop_literal (G : good_step) : forall k pos s result,
-  n - pos < k -> pos <= n ->
+Lemma replace_loop_literal_on (G : good_step_on) : forall k pos s result,
+  Inv s -> n - pos < k -> pos <= n ->
   replace_loop matchf true maxparens input repl (S k) pos s result false true
   = Ok (result ++ join (pieces (scan (S k) pos s) pos)).
 Proof.
-  induction k as [|k IH]; intros pos s result Hk Hp; [lia|].
+  induction k as [|k IH]; intros pos s result Hinv Hk Hp; [lia|].
   rewrite scan_S. remember (S k) as k1 eqn:Ek. cbn [replace_loop]. fold n. subst k1.
   destruct (Nat.ltb pos n) eqn:Lt.
-  - apply Nat.ltb_lt in Lt. pose proof (G pos s Hp) as Gp.
+  - apply Nat.ltb_lt in Lt. pose proof (G pos s Hp Hinv) as Gp.
     destruct (matchf pos s) as [s'|s'| |e]; cbn [mres_bool rbind]; try contradiction.
-    + destruct Gp as (a & b & Ha & Hb & H1 & H2 & H3). rewrite Ha, Hb.
+    + destruct Gp as [(a & b & Ha & Hb & H1 & H2 & H3) Hinv']. rewrite Ha, Hb.
       rewrite rslice_ok by lia. cbn [rbind negb].
       replace (Nat.eqb b pos) with false by (symmetry; apply Nat.eqb_neq; lia).
-      rewrite IH by lia. cbn [pieces]. f_equal.
+      rewrite (IH _ _ _ Hinv') by lia. cbn [pieces]. f_equal.
       rewrite <- !app_assoc. f_equal.
       destruct (pieces (scan (S k) b s') b) eqn:E.
       * pose proof (pieces_length (scan (S k) b s') b) as L. rewrite E in L. discriminate L.
@@ -194,3 +206,27 @@ Proof.
   specialize (H s0). destruct (matchf 0 s0); try contradiction. reflexivity.
 Qed.
 End Scan.
+
+(* ---------- the instances with the trivial invariant ---------- *)
+Lemma good_step_trivial matchf input : good_step matchf input -> good_step_on matchf input (fun _ => True).
+Proof.
+  intros G pos s Hp _. specialize (G pos s Hp). destruct (matchf pos s); auto.
+Qed.
+
+Theorem tok_all_spec matchf input (G : good_step matchf input) : forall k pe s, length input - pe < k -> pe <= length input ->
+  tok_all matchf input (S (S k)) {| t_prev := Some pe; t_ms := s |} = Ok (pieces input (scan matchf input (S k) pe s) pe).
+Proof. intros k pe s. apply (tok_all_spec_on matchf input (fun _ => True) (good_step_trivial _ _ G) k pe s I). Qed.
+
+Lemma scan_bound matchf input (G : good_step matchf input) : forall fuel pos s, pos <= length input ->
+  length (scan matchf input fuel pos s) <= length input - pos.
+Proof. intros fuel pos s. apply (scan_bound_on matchf input (fun _ => True) (good_step_trivial _ _ G) fuel pos s I). Qed.
+
+Theorem tok_count_bound matchf input (G : good_step matchf input) s :
+  exists l, tok_all matchf input (S (S (S (length input)))) {| t_prev := Some 0; t_ms := s |} = Ok l /\ length l <= length input + 1.
+Proof. apply (tok_count_bound_on matchf input (fun _ => True) (good_step_trivial _ _ G) s I). Qed.
+
+Lemma replace_loop_literal matchf input repl maxparens (G : good_step matchf input) : forall k pos s result,
+  length input - pos < k -> pos <= length input ->
+  replace_loop matchf true maxparens input repl (S k) pos s result false true
+  = Ok (result ++ join repl (pieces input (scan matchf input (S k) pos s) pos)).
+Proof. intros k pos s result. apply (replace_loop_literal_on matchf input (fun _ => True) repl maxparens (good_step_trivial _ _ G) k pos s result I). Qed.
